@@ -8,3 +8,48 @@ claim('C19', 'reference-model monitors (defining relations, Fraction/mpmath '
       'Trusted: Python int/Fraction arithmetic, mpmath, the SHAKE workload '
       'stream. Small-root completeness only as miss rate in calibrated '
       'regimes.')
+claim('C11', 'reference-model monitor: every public EcCurve operation executed '
+      'next to a textbook affine group law; OpenSSL cross-check of k*G',
+      'All pairs of points and all scalars on tiny prime-order curves '
+      '(exhaustive), all mixtures of special cases in batched operations over '
+      'a 12-point alphabet, edge scalars and operands on the nine named '
+      'curves, and the curve constants (non-singular, p and n prime, G on '
+      'curve, n*G = infinity, Hasse).',
+      'Trusted: the affine model over Python ints, gmpy2 primality, OpenSSL. '
+      'Named curves are sampled, not enumerated.')
+claim('C10', 'ground-truth monitor around BatchDL / ExtendedBatchDL / '
+      'BatchDLOfDifferences and the two check classes, with call histories '
+      'on one curve object',
+      'Every x in [0, bound) on tiny curves for all listed bounds and list '
+      'lengths; histories that leave larger/equal/smaller cached tables; '
+      'giant-step boundary logs on named curves; all structured private-key '
+      'forms on all nine curves; pairs at every distance class for several '
+      'max_diff.',
+      'Ground truth = points built as x*G by the model. A congruent log is '
+      'accepted. Default max_diff 2^24 only in the thorough tier.')
+claim('C15', 'reference-model monitor (definitions on Python strings) and '
+      'fast/slow path differential',
+      'Exhaustive over all strings of length <= 16 (quick 11) x all m; both '
+      'sides of every FrequencyCount fast-path threshold up to m = 10; all '
+      'tiny matrices and sampled matrices across the 50/32/256/8192-row '
+      'thresholds for all three rank routines.',
+      'Definitions evaluated on Python str; the m >= 23 guard of '
+      'FrequencyCount is out of reach (needs > 4*10^8 bits).')
+claim('C14', 'compiler sanitizers (ASan+UBSan+libstdc++ assertions), libFuzzer '
+      'and valgrind memcheck on both compile-time variants built from the '
+      'working tree; definitional oracle (Gaussian elimination) next to all '
+      'implementations',
+      'All sequences of length 0..20 (quick 16) in both C++ variants under '
+      'sanitizers; lengths 0..1100 with structured sequences through all '
+      'seven entry points; constructed known complexities up to 2^17 bits; '
+      'true counts for LfsrCount/LfsrLogProbability.',
+      'Oracle = solvability of the LFSR linear system (C++), cross-checked by '
+      'an independent Python implementation for n <= 10. Sanitizers see only '
+      'reached paths.')
+claim('C20', 'range contract, repetition/interleaving history monitor, stream '
+      'models (java.util.Random+BigInteger, truncated LCG)',
+      'Every registered generator for every n in 1..300 (thorough 1..2048) '
+      'plus residues mod 8/32/64 and larger n, six fixed and random seeds, '
+      're-issued in shuffled order after other generators ran.',
+      'Generators without a published stream model are only range- and '
+      'purity-checked. Known findings F5, F5b.')
